@@ -77,11 +77,14 @@ def gen_stream(rng, budget, malformed):
     return out, used
 
 
-def gen_case(rng, malformed=False):
+def gen_case(rng, malformed=False, padded=False):
+    """padded: some images sit on (or reach) the padding frame that closes their term; the publisher then continues in the
+    next term (op 'roll'), so that an image whose poll does not leave the padding frame is never served again."""
     nslots = rng.choice([1, 2, 2, 3, 3, 4, 5])
     sessions = [11, -22, 33, MAXI, MINI, 0, 7]
     rng.shuffle(sessions)
     slots = []
+    rolls = []
     for i in range(nslots):
         bits = 16
         tl = 1 << bits
@@ -91,11 +94,26 @@ def gen_case(rng, malformed=False):
         off = 32 * rng.randrange(0, (tl - used) // 32 + 1) if rng.random() < 0.7 else 0
         if rng.random() < 0.1:
             off = tl - used
+        pad_here = padded and (i == 0 or rng.random() < 0.5)
+        if pad_here:
+            if rng.random() < 0.6:
+                off = tl - used - 32 * rng.choice([1, 1, 2, 3, 10, 100])
+            if tl - off - used >= 32:
+                frames = frames + [[0, 0, tl - off - used, 0, 0]]
         vis = rng.choice([0, len(frames), rng.randrange(0, len(frames) + 1), rng.randrange(0, len(frames) + 1)])
+        if pad_here:
+            vis = rng.choice([len(frames), len(frames), max(0, len(frames) - 1)])
         seg = [n, off, vis, rng.choice([0, 0, 1]), frames]
         bs = c05.boundaries(seg, tl)
         pos0 = bs[0] if rng.random() < 0.7 else rng.choice(bs)
+        if pad_here and len(frames) >= 1 and rng.random() < 0.6:
+            pos0 = bs[-2]          # caught up: exactly on the padding frame (or the last frame) that closes the term
         slots.append([bits, init, sessions[i], pos0, seg])
+        if pad_here:
+            nf, _ = gen_stream(rng, 3000, False)
+            if not nf:
+                nf = [[1, 192, 32 + rng.choice([1, 40, 100]), rng.randrange(1, 1000), 0]]
+            rolls.append(['roll', i, rng.choice([len(nf), len(nf), rng.randrange(0, len(nf) + 1)]), rng.choice([0, 0, 1]), nf])
     order = list(range(nslots))
     rng.shuffle(order)
     initial = order[:rng.choice([nslots, nslots, max(1, nslots - 1), rng.randrange(0, nslots + 1)])]
@@ -119,7 +137,22 @@ def gen_case(rng, malformed=False):
             ops.append(['add', rng.randrange(nslots)])
         else:
             ops.append(['remove', rng.randrange(nslots)])
-    return {'kind': 'malformed' if malformed else 'sub', 'slots': slots, 'initial': initial, 'ibl': ibl, 'ops': ops}
+    if padded:
+        initial = order[:nslots] if rng.random() < 0.8 else initial
+        for r in rolls:
+            at = rng.randrange(0, len(ops) + 1)
+            ops.insert(at, ['grow', r[1], 1])
+            at2 = rng.randrange(at + 1, len(ops) + 1)
+            ops.insert(at2, r)
+            for _ in range(rng.choice([0, 1, 2])):
+                ops.insert(rng.randrange(at2 + 1, len(ops) + 1), ['grow', r[1], rng.choice([1, 2, 100])])
+        for _ in range(rng.choice([2, 4, 6])):
+            limit = rng.choice([1, 1, 2, 3, 10, MAXI])
+            if rng.random() < 0.8:
+                ops.append(['poll', limit])
+            else:
+                ops.append(['cpoll', limit, rng.randrange(0, 7), [rng.choice([4, 4, 3, 1, 2]) for _ in range(rng.choice([0, 1, 3]))]])
+    return {'kind': 'malformed' if malformed else ('padded' if padded else 'sub'), 'slots': slots, 'initial': initial, 'ibl': ibl, 'ops': ops}
 
 
 def boundary_cases():
@@ -135,14 +168,28 @@ def boundary_cases():
     # joined in the middle of a message: image 0 starts at the MIDDLE fragment
     out.append({'kind': 'sub', 'slots': [[16, 5, 77, 96, [0, 0, 5, 0, a]], [16, 9, 88, 64, [0, 64, 4, 0, b]]],
                 'initial': [1, 0], 'ibl': 32, 'ops': [['poll', 1], ['poll', 1], ['poll', 10], ['poll', 10]]})
+    # fairness across a term end: image 1 has caught up and sits exactly on the padding frame that closes its term while
+    # images 0 and 2 always have data; the publisher continues in the next term (roll).  Every image must be served.
+    pad = [[1, 192, 50, 20, 0], [0, 0, 65536 - 4096 - 64, 0, 0]]
+    nxt = [[1, 128, 96, 21, 0], [1, 64, 40, 22, 0], [1, 192, 44, 23, 0]]
+    for limit in (1, 10):
+        out.append({'kind': 'padded', 'slots': [[16, 5, 77, 0, [0, 0, 5, 0, a]], [16, MAXI, 88, 2 * 65536 + 4096 + 64, [2, 4096, 2, 0, pad]],
+                                                  [16, -3, 99, 65536 * 2, [2, 0, 4, 0, c]]],
+                    'initial': [0, 1, 2], 'ibl': 0,
+                    'ops': [['poll', limit]] * 4 + [['roll', 1, 3, 0, nxt]] + [['poll', limit]] * 5})
+    # the padding frame becomes visible only after the image has caught up with the last data frame
+    out.append({'kind': 'padded', 'slots': [[16, 9, 88, 65536 + 4096, [1, 4096, 1, 0, pad]], [16, 5, 77, 0, [0, 0, 5, 0, a]]],
+                'initial': [0, 1], 'ibl': 64,
+                'ops': [['poll', 1], ['poll', 1], ['grow', 0, 1], ['cpoll', 1, 0, [1]], ['poll', 1], ['poll', 1], ['roll', 0, 2, 1, nxt],
+                        ['poll', 1], ['poll', 1], ['grow', 0, 1], ['poll', 2], ['poll', 2]]})
     return out
 
 
 def generate(rng, tier):
-    n = 40000 if tier == 'thorough' else 1200
+    n = 40000 if tier == 'thorough' else 1100
     cases = boundary_cases()
     for i in range(n):
-        cases.append(gen_case(rng, malformed=(i % 8 == 5)))
+        cases.append(gen_case(rng, malformed=(i % 8 == 5), padded=(i % 8 in (2, 6))))
     return cases
 
 
@@ -167,6 +214,10 @@ def impl_line(c):
             p += [5, o[1]]
         elif k == 'remove':
             p += [6, o[1]]
+        elif k == 'roll':
+            p += [7, o[1], o[2], o[3], len(o[4])]
+            for f in o[4]:
+                p += f
         else:
             raise ValueError(o)
     return ' '.join(str(x) for x in p)
@@ -195,6 +246,9 @@ def c_op(o):
         return 'SAdd %s' % z(o[1])
     if k == 'remove':
         return 'SRemove %s' % z(o[1])
+    if k == 'roll':
+        fs = '[' + '; '.join('(%s, %s, %s, %s, %s)' % tuple(z(x) for x in f) for f in o[4]) + ']'
+        return 'SRoll %s %s %s %s' % (z(o[1]), z(o[2]), 'true' if o[3] else 'false', fs)
     raise ValueError(o)
 
 
@@ -242,7 +296,7 @@ def shrink(c):
     if len(c['slots']) > 1:
         # drop the last slot when no operation names it
         last = len(c['slots']) - 1
-        if all(not (o[0] in ('grow', 'add', 'remove') and o[1] == last) for o in ops):
+        if all(not (o[0] in ('grow', 'add', 'remove', 'roll') and o[1] == last) for o in ops):
             d = dict(c)
             d['slots'] = c['slots'][:-1]
             d['initial'] = [i for i in c['initial'] if i != last]
